@@ -11,6 +11,14 @@ using namespace vf;
 namespace {
 
 int const MTUS[] = { 100, 576, 1475, 3000 };
+struct TtlOpt
+{
+	int v;
+	template <class P> int level(P const&) const { return IPPROTO_IP; }
+	template <class P> int name(P const&) const { return IP_TTL; }
+	template <class P> void const* data(P const&) const { return &v; }
+	template <class P> std::size_t size(P const&) const { return sizeof(v); }
+};
 struct DfOpt
 {
 	int v;
@@ -25,23 +33,26 @@ int size_of(int code, int mtu) { switch (code) { case 0: return 1; case 1: retur
 
 struct Res { std::vector<std::string> fails; std::string trace; uint64_t segments = 0, transitions = 0; };
 
-World* make_world(World& w, int mA, int mB)
+World* make_world(World& w, int mA, int mB, bool natA = false)
 {
-	w.on_build = [](World& ww, sim::simulation&) {
+	w.on_build = [natA](World& ww, sim::simulation&) {
+		// connector A behind a NAT: the path MTU still belongs to the two endpoints (the configuration answers 3000 for the NAT's own address)
+		if (natA) ww.out[addr("10.0.0.1")] = World::hops_t{ std::make_shared<sim::nat>(addr("99.0.0.1")) };
 		auto q1 = ww.queue(0, ms(5), 0), q2 = ww.queue(50000000, ms(1), 0);
 		auto p0 = ww.probe(0, size_t(-1)), p1 = ww.probe(1, size_t(-1)), p2 = ww.probe(2, size_t(-1));
 		ww.chan = [=](ip::address, ip::address) { return World::hops_t{ p0, q1, p1, q2, p2 }; };
 	};
 	w.mtu = [mA, mB](ip::address a, ip::address b) {
 		auto is = [&](const char* x) { return a == addr(x) || b == addr(x); };
-		if (is("10.0.0.1")) return mA; if (is("10.0.0.2")) return mB; return 1475;
+		if (is("10.0.0.1")) return mA; if (is("10.0.0.2")) return mB; if (is("99.0.0.1")) return 3000; return 1475;
 	};
 	return &w;
 }
 
-Res run_tcp(int mA, int mB, int scode, int layout, bool multihomed)
+Res run_tcp(int mA, int mB, int scode, int layout, int mode /* 0 two client nodes, 1 one multi-homed client node, 2 connector A behind a NAT */)
 {
-	Res R; World w; make_world(w, mA, mB);
+	bool const multihomed = mode == 1;
+	Res R; World w; make_world(w, mA, mB, mode == 2);
 	sim::simulation sim(w);
 	// multihomed: both client addresses belong to ONE node, so that one node holds connections whose address pairs have different MTUs
 	std::unique_ptr<asio::io_context> nA_, nB_, nAB_;
@@ -103,7 +114,7 @@ Res run_tcp(int mA, int mB, int scode, int layout, bool multihomed)
 		++R.segments;
 		int mtu = 1475; std::string who;
 		// the address pair of this segment: from-address and the connection it belongs to
-		if (p->from.compare(0, 9, "10.0.0.1:") == 0) { mtu = mA; who = "connector A"; }
+		if (p->from.compare(0, 9, "10.0.0.1:") == 0 || p->from.compare(0, 9, "99.0.0.1:") == 0) { mtu = mA; who = "connector A"; }
 		else if (p->from.compare(0, 9, "10.0.0.2:") == 0) { mtu = mB; who = "connector B"; }
 		else if (p->from == "10.0.1.1:6000") { mtu = mA; who = "accepted side of A's connection"; }
 		else if (p->from == "10.0.1.1:6001") { mtu = mB; who = "accepted side of B's connection"; }
@@ -122,7 +133,7 @@ Res run_tcp(int mA, int mB, int scode, int layout, bool multihomed)
 	return R;
 }
 
-// df: 0 never touched, 1 set, 2 set then cleared ; dir: 0 A->S, 1 S->A
+// df: 0 never touched, 1 set, 2 set then cleared, 3 set and then an unrelated option (IP_TTL) set ; dir: 0 A->S, 1 S->A
 Res run_udp(int mtu, int scode, int df, int dir, bool multihomed, bool busy = false)
 {
 	Res R; World w; make_world(w, mtu, 1475);
@@ -141,6 +152,7 @@ Res run_udp(int mtu, int scode, int df, int dir, bool multihomed, bool busy = fa
 	error_code ec;
 	if (df >= 1) { tx.set_option(DfOpt{ IP_PMTUDISC_DO }, ec); }
 	if (df == 2) { tx.set_option(DfOpt{ IP_PMTUDISC_DONT }, ec); }
+	if (df == 3) { tx.set_option(TtlOpt{ 17 }, ec); } // an unrelated option set afterwards leaves don't-fragment as it is
 	int size = scode == 6 ? 65507 : size_of(scode, mtu);
 	std::string pl = pat(3, size);
 	std::vector<char> rb(70000); ip::udp::endpoint from; bool got = false; std::size_t gn = 0;
@@ -157,16 +169,16 @@ Res run_udp(int mtu, int scode, int df, int dir, bool multihomed, bool busy = fa
 	std::size_t ret = tx.send_to(asio::buffer(pl), dir == 0 ? ip::udp::endpoint(addr("10.0.1.1"), 5000) : ip::udp::endpoint(addr("10.0.0.1"), 4000), 0, ec);
 	sim.run();
 	size_t wire = 0; for (auto& p : w.log) { ++R.transitions; if (p.probe == 0 && p.type == sim::aux::packet::type_t::payload && !(busy && p.payload == 7)) ++wire; }
-	bool over = size > mtu; bool expect_drop = over && df == 1;
+	bool over = size > mtu; bool expect_drop = over && (df == 1 || df == 3);
 	R.trace = fmt("mtu %d size %d df %d dir %d%s: ret %zu %s wire %zu delivered %d", mtu, size, df, dir, busy ? fmt(" send buffer full after %d small datagrams", fillers).c_str() : "", ret, ecs(ec).c_str(), wire, int(got));
 	if (busy && !expect_drop) {
 		// a deliverable datagram offered to a full send buffer: would_block and nothing sent (the only other acceptable outcome is a whole delivery)
 		if (ecs(ec) == "would_block" && ret == 0) { if (wire || got) R.fails.push_back(fmt("udp_send: send_to reported would_block but the %d-byte datagram was %s", size, got ? "delivered" : "put on the wire")); error_code ig2; rx.cancel(ig2); sim.run(); return R; }
 	}
-	if (ec || ret != size_t(size)) R.fails.push_back(fmt("udp_send: send_to of %d bytes (mtu %d, don't-fragment %s) returned %zu %s, expected %d ok", size, mtu, df == 1 ? "set" : df == 2 ? "cleared" : "untouched", ret, ecs(ec).c_str(), size));
+	if (ec || ret != size_t(size)) R.fails.push_back(fmt("udp_send: send_to of %d bytes (mtu %d, don't-fragment %s) returned %zu %s, expected %d ok", size, mtu, df == 1 ? "set" : df == 2 ? "cleared" : df == 3 ? "set, then IP_TTL set" : "untouched", ret, ecs(ec).c_str(), size));
 	if (expect_drop) { if (wire || got) R.fails.push_back(fmt("udp_df: a %d-byte datagram over MTU %d with don't-fragment set was %s", size, mtu, got ? "delivered" : "put on the wire")); }
 	else {
-		if (!got) R.fails.push_back(fmt("udp_deliver: a %d-byte datagram (mtu %d, don't-fragment %s) was not delivered", size, mtu, df == 1 ? "set" : df == 2 ? "cleared" : "untouched"));
+		if (!got) R.fails.push_back(fmt("udp_deliver: a %d-byte datagram (mtu %d, don't-fragment %s) was not delivered", size, mtu, df == 1 ? "set" : df == 2 ? "cleared" : df == 3 ? "set, then IP_TTL set" : "untouched"));
 		else if (gn != size_t(size) || std::string(rb.data(), gn) != pl) R.fails.push_back("udp_deliver: datagram not delivered whole and intact");
 	}
 	error_code ig; rx.cancel(ig); sim.run();
@@ -180,13 +192,13 @@ struct MtuEngine : Engine
 	uint64_t units(Args const&) override
 	{
 		all.clear();
-		for (int mh = 0; mh < 2; ++mh) for (int a = 0; a < 4; ++a) for (int b = 0; b < 4; ++b) for (int s = 0; s < 7; ++s) for (int l = 0; l < 3; ++l) all.push_back(U{ 0, MTUS[a], MTUS[b], s, l, mh });
-		for (int mh = 0; mh < 2; ++mh) for (int a = 0; a < 4; ++a) for (int s = 0; s < 7; ++s) for (int df = 0; df < 3; ++df) for (int dir = 0; dir < 2; ++dir) all.push_back(U{ 1, MTUS[a], s, df, dir, mh });
+		for (int mh = 0; mh < 3; ++mh) for (int a = 0; a < 4; ++a) for (int b = 0; b < 4; ++b) for (int s = 0; s < 7; ++s) for (int l = 0; l < 3; ++l) all.push_back(U{ 0, MTUS[a], MTUS[b], s, l, mh });
+		for (int mh = 0; mh < 2; ++mh) for (int a = 0; a < 4; ++a) for (int s = 0; s < 7; ++s) for (int df = 0; df < 4; ++df) for (int dir = 0; dir < 2; ++dir) all.push_back(U{ 1, MTUS[a], s, df, dir, mh });
 		for (int a = 0; a < 4; ++a) for (int s = 0; s < 7; ++s) for (int df = 0; df < 3; ++df) for (int dir = 0; dir < 2; ++dir) { U u{ 1, MTUS[a], s, df, dir, 0 }; u.busy = 1; all.push_back(u); }
 		return all.size();
 	}
-	Res exec(U const& u) { return u.kind == 0 ? run_tcp(u.a, u.b, u.c, u.d, u.mh != 0) : run_udp(u.a, u.b, u.c, u.d, u.mh != 0, u.busy != 0); }
-	std::string ustr(U const& u) { return (u.kind == 0 ? fmt("tcp mtu(A,S)=%d mtu(B,S)=%d size-code %d layout %d", u.a, u.b, u.c, u.d) : fmt("udp mtu=%d size-code %d df=%d dir=%d", u.a, u.b, u.c, u.d)) + (u.mh ? " [both client addresses on one multi-homed node]" : "") + (u.busy ? " [send buffer full]" : ""); }
+	Res exec(U const& u) { return u.kind == 0 ? run_tcp(u.a, u.b, u.c, u.d, u.mh) : run_udp(u.a, u.b, u.c, u.d, u.mh != 0, u.busy != 0); }
+	std::string ustr(U const& u) { return (u.kind == 0 ? fmt("tcp mtu(A,S)=%d mtu(B,S)=%d size-code %d layout %d", u.a, u.b, u.c, u.d) : fmt("udp mtu=%d size-code %d df=%d dir=%d", u.a, u.b, u.c, u.d)) + (u.mh == 1 ? " [both client addresses on one multi-homed node]" : u.mh == 2 ? " [connector A behind a NAT]" : "") + (u.busy ? " [send buffer full]" : ""); }
 	void run_unit(uint64_t i, Ctx& ctx) override
 	{
 		if (!ctx.next_case()) return;
